@@ -238,6 +238,13 @@ func (c *Ctx) ruleLifecycle(rule string, want map[string]bool) {
 						}
 					}
 				}
+				// ... or, for the request with two named objects, exactly those two names
+				if !p.multi && p.isGw(dc.cc.Args[0]) && len(dc.cc.Args) == 2 {
+					keys := x.variadicElems(dc.cc.Args[1])
+					if len(keys) == 2 && x.sameValue(keys[0], p.prepare.Call.Args[1]) && x.sameValue(keys[1], p.prepare.Call.Args[3]) {
+						clrOK = true
+					}
+				}
 			case fnIs(cal, pContext, "DataContext", "Del"):
 				clr = dc
 				// receiver gw.rulebuilder.Dc; keys = the two names given to prepare
